@@ -103,6 +103,11 @@ def depth_boundary_pass(ctx, dist):
                     t = {"r": t}
                 cases.append(["history", None, hist.stream_history([t])])
                 meta.append((shape, d))
+        # the evaluator's second pass has its own guard: reach it with a document that only becomes deep when a $decode unpacks it
+        for d in range(994, 1003):
+            text = '{"a":' * d + "1" + "}" * d
+            cases.append(["history", None, hist.stream_history([{"x": {"$decode": "json", "$value": text}}])])
+            meta.append(("decoded", d))
         hist.collect_tables(ctx, cases, lambda c: {}, hist.docs_of_history)
         im = ctx.impl(cases)
         mo = ctx.model(cases)
